@@ -239,9 +239,14 @@ Qed.
 
 (* ------------------------------------------------------------------ documents: every non-null member is stored *)
 (* [props_separate] (proofs/CodecDecStored.v) is a condition on the schema alone: two different
-   properties of a set address proto fields on diverging paths, and neither field is a oneof sibling of
-   the other.  (Members of one unexposed proto oneof do not satisfy it: for them the second member is
-   rejected, C03_oneof_sibling_rejected.) *)
+   properties of a set address proto fields on diverging paths (for the arms of an exposed oneof also:
+   the outer field is not one of the arm's oneof siblings).  Members of one unexposed proto oneof
+   satisfy it; that at most one of them is ever stored is the CreateField conflict check
+   (C03_oneof_sibling_rejected).  The condition is decidable (C03_separation_decidable) and the
+   correspondence evaluates it on every environment dumped from the real reflector. *)
+Theorem C03_separation_decidable : forall e props, props_separate_b e props = true -> props_separate e props.
+Proof. exact props_separate_b_sound. Qed.
+Print Assumptions C03_separation_decidable.
 
 (* JSONToProto succeeded on a document whose root the tokenizer reads as the object ms.  Then every
    non-null member was decoded by the decoder of its own property (never skipped), and the field that
